@@ -304,6 +304,7 @@ fn err_json(e: &tera::Error) -> J {
 /// were accepted (short write first, then error)
 struct FaultyWriter {
     accepted: Vec<u8>,
+    sizes: Vec<usize>,
     calls: usize,
     fail_call: Option<usize>,
     budget: Option<usize>,
@@ -312,6 +313,7 @@ struct FaultyWriter {
 impl Write for FaultyWriter {
     fn write(&mut self, buf: &[u8]) -> std::io::Result<usize> {
         self.calls += 1;
+        self.sizes.push(buf.len());
         if let Some(k) = self.fail_call {
             if self.calls >= k {
                 self.failed = true;
@@ -427,6 +429,7 @@ fn run_step(
             let to = step.get("to");
             let mut w = FaultyWriter {
                 accepted: Vec::new(),
+                sizes: Vec::new(),
                 calls: 0,
                 fail_call: to.and_then(|x| x.get("fail_call")).and_then(|x| x.as_u64()).map(|x| x as usize),
                 budget: to.and_then(|x| x.get("budget")).and_then(|x| x.as_u64()).map(|x| x as usize),
@@ -462,12 +465,63 @@ fn run_step(
             if use_to {
                 j["accepted"] = bytes_json(&w.accepted);
                 j["calls"] = json!(w.calls);
+                j["sizes"] = json!(w.sizes);
                 j["wfailed"] = json!(w.failed);
             }
             j["gauge"] = json!(tera::verif::depth_max());
             j
         }
         "valops" => valops::run(step),
+        "threads" => {
+            // renders from several threads sharing one &Tera; only compiles if the types are Send + Sync
+            fn assert_send_sync<T: Send + Sync>() {}
+            assert_send_sync::<Tera>();
+            assert_send_sync::<Context>();
+            assert_send_sync::<Value>();
+            assert_send_sync::<tera::Error>();
+            let name = step["name"].as_str().unwrap().to_string();
+            let n = step["n"].as_u64().unwrap_or(8) as usize;
+            let reps = step["reps"].as_u64().unwrap_or(20) as usize;
+            let seq: Vec<J> = (0..2)
+                .map(|_| match t.render(&name, &ctx) {
+                    Ok(s) => json!({"ok": true, "out": s}),
+                    Err(e) => json!({"ok": false, "kind": kind_name(e.kind())}),
+                })
+                .collect();
+            let tref: &Tera = &*t;
+            let cref = &ctx;
+            let mut all: Vec<J> = Vec::new();
+            std::thread::scope(|sc| {
+                let hs: Vec<_> = (0..n)
+                    .map(|_| {
+                        let name = name.clone();
+                        sc.spawn(move || {
+                            let mut outs = Vec::new();
+                            for _ in 0..reps {
+                                outs.push(match tref.render(&name, cref) {
+                                    Ok(s) => json!({"ok": true, "out": s}),
+                                    Err(e) => json!({"ok": false, "kind": kind_name(e.kind())}),
+                                });
+                            }
+                            outs
+                        })
+                    })
+                    .collect();
+                for h in hs {
+                    match h.join() {
+                        Ok(o) => all.extend(o),
+                        Err(_) => all.push(json!({"panic": true})),
+                    }
+                }
+            });
+            let mut distinct: Vec<J> = Vec::new();
+            for o in all.iter() {
+                if !distinct.contains(o) {
+                    distinct.push(o.clone());
+                }
+            }
+            json!({"ok": true, "sequential": seq, "distinct": distinct, "renders": all.len()})
+        }
         _ => json!({"ok": false, "kind": "BadStep"}),
     };
     let log = PROBE_LOG.with(|l| l.borrow().clone());
